@@ -131,6 +131,58 @@ NON_MUTATING_METHODS = {
 }
 
 
+def bound_names(stmts):
+  """Names that Python's scoping rule makes LOCAL to a function with this body: targets that
+  are plain names (assignment, for, with-as, import, def/class, except-as, walrus, del).
+  Subscript or attribute stores and method calls do not bind (they read the name)."""
+  names = set()
+
+  def target(t):
+    if isinstance(t, ast.Name):
+      names.add(t.id)
+    elif isinstance(t, (ast.Tuple, ast.List)):
+      for e in t.elts:
+        target(e)
+    elif isinstance(t, ast.Starred):
+      target(t.value)
+
+  def walk(n):
+    for ch in ast.iter_child_nodes(n):
+      if isinstance(ch, (ast.FunctionDef, ast.AsyncFunctionDef, ast.ClassDef)):
+        names.add(ch.name)
+        continue                       # a nested scope binds its own names
+      if isinstance(ch, ast.Lambda):
+        continue
+      if isinstance(ch, ast.Assign):
+        for t in ch.targets:
+          target(t)
+      elif isinstance(ch, (ast.AugAssign, ast.AnnAssign)):
+        target(ch.target)
+      elif isinstance(ch, (ast.For, ast.AsyncFor)):
+        target(ch.target)
+      elif isinstance(ch, (ast.With, ast.AsyncWith)):
+        for it in ch.items:
+          if it.optional_vars is not None:
+            target(it.optional_vars)
+      elif isinstance(ch, ast.Delete):
+        for t in ch.targets:
+          target(t)
+      elif isinstance(ch, (ast.Import, ast.ImportFrom)):
+        for a in ch.names:
+          names.add((a.asname or a.name).split('.')[0])
+      elif isinstance(ch, ast.ExceptHandler) and ch.name:
+        names.add(ch.name)
+      elif isinstance(ch, ast.NamedExpr):
+        target(ch.target)
+      if isinstance(ch, (ast.ListComp, ast.SetComp, ast.DictComp, ast.GeneratorExp)):
+        continue                       # comprehension targets live in their own scope
+      walk(ch)
+
+  m = ast.Module(body=list(stmts), type_ignores=[])
+  walk(m)
+  return names
+
+
 def assigned_names(stmts):
   """Names (and `self.x` attribute paths) assigned or mutated in statements.
 
